@@ -38,10 +38,10 @@ def spec_window(frame, c, p, h=None, w=None):
     return np.array(out, dtype=frame.dtype).reshape(h, w)
 
 
-def real_crops(frame, c, peaks, backend, dtype, h=None, w=None, sparse_frame=False):
+def real_crops(frame, c, peaks, backend, dtype, h=None, w=None, sparse_frame=False, extra_slots=0):
     h = 2 * c if h is None else h
     w = 2 * c if w is None else w
-    buf = np.full((len(peaks), h, w), SENT, dtype=dtype)
+    buf = np.full((len(peaks) + extra_slots, h, w), SENT, dtype=dtype)
     fr = frame.astype(dtype)
     pk = np.asarray(peaks, dtype=np.int64).reshape(-1, 2)
     if backend == "pixel":
@@ -167,7 +167,8 @@ def run_case(kind, params):
     res = {}
     for be in ("pixel", "slicing"):
         try:
-            res[be] = real_crops(frame, c, peaks, be, dt, sparse_frame=bool(params.get("sparse")))
+            res[be] = real_crops(frame, c, peaks, be, dt, sparse_frame=bool(params.get("sparse")),
+                                 extra_slots=int(params.get("extra_slots", 0)))
         except Exception as e:
             msgs.append(f"{be} back-end raised {type(e).__name__}: {e}")
     fr = frame.astype(dt)
@@ -177,6 +178,11 @@ def run_case(kind, params):
             if not np.array_equal(r[i], want, equal_nan=(fr.dtype.kind == "f")):
                 msgs.append(f"{be} back-end, frame {fr.shape}, c={c}, peak {p}: got "
                             f"{r[i].tolist()} expected {want.tolist()}")
+    for be, r in res.items():
+        # a buffer stack with more slots than peaks (allocated for a larger block): the surplus slots belong to no peak and
+        # keep what they held; the peak list is not read past its end
+        if len(r) > len(peaks) and not np.all(r[len(peaks):] == np.asarray(SENT, dtype=r.dtype)):
+            msgs.append(f"{be} back-end, {len(peaks)} peak(s), {len(r)} buffer slots: slots beyond the peak list were written")
     if len(res) == 2 and not np.array_equal(res["pixel"], res["slicing"], equal_nan=(fr.dtype.kind == "f")):
         msgs.append("the two back-ends disagree")
     return msgs[:6]
@@ -225,7 +231,7 @@ def search(ctx, boost=1, focus=()):
             ctx.count("full_range_" + xdt.name)
             continue
         cases.append({"frame": rng.integers(1, 60000, (fy, fx)), "c": c, "peaks": peaks,
-                      "dtype": dts[k % len(dts)], "sparse": k % 5 == 0})
+                      "dtype": dts[k % len(dts)], "sparse": k % 5 == 0, "extra_slots": int(rng.integers(1, 4)) if k % 4 == 1 else 0})
     for params in cases:
         msgs = run_case("crop", params)
         fr = params["frame"]
